@@ -6,7 +6,7 @@ PATH_KINDS = ['constant', 'squared', 'sine', 'rfi_us', 'rfi_ns', 'rfi_uw', 'rfi_
 PATH_FORMS = ['callable', 'callable', 'callable', 'array', 'list', 'scalar', 'int']
 TPROF_KINDS = ['constant', 'sine', 'pgauss_up', 'pgauss_down', 'pgauss_rand', 'custom_scalar', 'custom_poly']
 TPROF_FORMS = ['callable', 'callable', 'callable', 'array', 'list', 'scalar', 'int']
-FPROF_KINDS = ['box', 'gaussian', 'multi', 'lorentzian', 'voigt', 'sinc2_c_t', 'sinc2_f_t', 'sinc2_c_n', 'sinc2_f_n']
+FPROF_KINDS = ['box', 'gaussian', 'multi', 'lorentzian', 'voigt', 'sinc2_c_t', 'sinc2_f_t', 'sinc2_c_n', 'sinc2_f_n', 'custom_abs']
 BP_KINDS = ['none', 'scalar', 'constant', 'cos', 'array']
 BOUND_KINDS = ['none', 'none', 'inside', 'clip_lo', 'clip_hi', 'below', 'above', 'empty', 'full']
 
@@ -99,6 +99,9 @@ def gen_signal(rng, g, i=None, kinds=None):
     if fk.startswith('sinc2'):
         _, mode, tr = fk.split('_')
         fprof = dict(kind='sinc2', width=w * df, mode='crossing' if mode == 'c' else 'fwhm', trunc=(tr == 't'))
+    elif fk == 'custom_abs':
+        fprof = dict(kind='custom_abs', width=max(w, 0.5) * df, comb=float(rng.uniform(2.5, 9)) * df, f_ref=fmin + float(rng.uniform(0, F)) * df,
+                     growth=float(rng.uniform(0.0, 0.4)))
     elif fk == 'voigt':
         fprof = dict(kind='voigt', g_width=w * df, l_width=float(10 ** rng.uniform(-1, 1)) * df)
     else:
